@@ -12,7 +12,6 @@ import (
 	"go/constant"
 	"go/token"
 	"go/types"
-	"os"
 	"reflect"
 	"sort"
 	"strconv"
